@@ -81,6 +81,14 @@ theorem discriminants_distinct (e : Enum) (hcfg : ∀ v ∈ e.variants, v.cfg = 
       obtain ⟨i, hi, hget⟩ := hmem
       exact ⟨i, by simp [this] at hi ⊢; omega, by simp [hget]⟩
 
+/-- … hence the discriminants actually written into the emitted `enum` (the second, independent
+    numbering done in `transform_enum`) are pairwise distinct for every enum the analysis accepts. -/
+theorem emitted_discriminants_distinct (e : Enum) (w : Nat) (base : BaseType) (useTry : Bool)
+    (hcfg : ∀ v ∈ e.variants, v.cfg = none) (hok : DDV.Props.C15.EnumOk w base e useTry) :
+    ((numberVariants (assignValues e.variants none).1 none).map (·.number)).Nodup := by
+  rw [DDV.Props.C15.numbering_agree]
+  exact discriminants_distinct e hcfg hok.distinct
+
 /-- The `Debug` impl calls the getter of every field; a field set all of whose fields are readable
     therefore only calls getters that exist. (The full statement — for every field set — is false
     of the current tree: finding F11, write-only fields.) -/
